@@ -1,0 +1,11 @@
+// SPDX-FileCopyrightText: 2019, 2020, 2021 Alvar Penning
+//
+// SPDX-License-Identifier: GPL-3.0-or-later
+
+//go:build !verif
+// +build !verif
+
+package storage
+
+// verifPoint marks a crash / schedule point for the verification harness. Without the "verif" build tag it is empty.
+func verifPoint(string) {}
